@@ -130,6 +130,9 @@ RCallable ==
   UNION {{[t |-> "m", c |-> x.c, i |-> i] : i \in {j \in 1..NM(x.c) : MethodGate(x.c, j) \/ DataCallable(x.c, j)}}
            : x \in {y \in RDefined : IsClassT(y)}}
   \cup {[t |-> "t", c |-> 0, i |-> t] : t \in {x \in 1..NT : TopGate(x)}}
+RGlobal == {CT(c) : c \in {x \in 1..NC : ScanClass(x) \/ Forced(x)}}
+           \cup {CT(lib.tops[t].rc) : t \in {x \in 1..NT : ScanTypedef(x)}}
+           \cup {x \in RDefined : IsClassT(x)}
 \* a defined class has a destructor function unless it declares an inaccessible one
 HasDtor(c) == \A i \in 1..NM(c) : Mbr(c, i).k = "dtor" => MethodGate(c, i)
 \* what the sentence calls "exported"
@@ -252,7 +255,10 @@ SafeFile == \A e \in calls :
   \/ LocalSrc(lib.files[DeclFile(e)].src) /\ ~IgnoredFile(DeclFile(e))
   \/ e.t = "m" /\ Forced(e.c)
 \* never for a signature involving a protected/private type, an rvalue reference, or an ignored type
-SafeSig == \A e \in calls : ~SigProtected(DeclSig(e)) /\ ~SigRvalue(DeclSig(e)) /\ ~SigIgnored(DeclSig(e))
+\* (ignoreinvolved is documented for functions only: accessors of a data member are outside the claim)
+SafeSig == \A e \in calls :
+  /\ ~SigProtected(DeclSig(e)) /\ ~SigRvalue(DeclSig(e))
+  /\ DeclKind(e) \notin {"data", "datap"} => ~SigIgnored(DeclSig(e))
 \* never for a member of a class that is protected/private itself or excluded by a command
 SafeOwner == \A e \in calls : e.t = "m" =>
   /\ ~ProtType(CT(e.c))
@@ -269,7 +275,7 @@ Consistent ==
 \* the mechanism never goes beyond the rule ...
 Sound == phase # "build" => calls \subseteq RCallable /\ known \subseteq RKnown /\ defd \subseteq RDefined
 \* ... and reaches it
-Complete == phase = "fix" => calls = RCallable /\ known = RKnown /\ defd = RDefined
+Complete == phase = "fix" => calls = RCallable /\ known = RKnown /\ defd = RDefined /\ glob = RGlobal
 
 \* the scan terminates: the worklist only shrinks against a growing `known`
 TypeSpace == {CT(c) : c \in 1..NC} \cup UNION {{ET(c, i) : i \in 1..NM(c)} : c \in 1..NC}
